@@ -253,7 +253,7 @@ def process(ctx, cases):
         if not chk['ok']['check']:
             ctx.fail_input(case, 'returned rows are not exactly the n smallest accepted consumed draws '
                            '(ascending, distinct draws, threshold = largest): verified checker says no',
-                           'checkExtract = true', dict(out=info['out'], threshold=float(res.threshold),
+                           'checkExtract = true', dict(out=info['out'], threshold=np.ravel(res.threshold).tolist(),
                                                        consumed=info['cons']), finding=fid)
         mdl = a['ok']
         code = dict(keys=[key_json(last_col(v)) for v in res.outputs['d']], threshold=key_json(last_col(res.threshold)),
